@@ -11,8 +11,14 @@ if old not in s:
     print('MUT: pattern not found'); sys.exit(3)
 open(p, 'w').write(s.replace(old, new, 1))
 try:
-    t = subprocess.run(['/verif/tools/repo_test.sh'], capture_output=True, text=True)
-    tests = 'tests-pass' if t.returncode == 0 else 'TESTS-FAIL'
+    try:
+        t = subprocess.run(['/verif/tools/repo_test.sh'], capture_output=True, text=True, timeout=180)
+        tests = 'tests-pass' if t.returncode == 0 else 'TESTS-FAIL'
+        if t.returncode != 0 and os.environ.get('MUT_VERBOSE'):
+            print(t.stdout[-1500:])
+    except subprocess.TimeoutExpired:
+        subprocess.run(['pkill', '-9', '-f', 'atp.test'])
+        tests = 'TESTS-HANG'
     res = []
     for prop in props.split(','):
         c = subprocess.run(['/verif/check', prop, '--tier', tier], capture_output=True, text=True, cwd='/verif')
